@@ -376,11 +376,10 @@ pub fn c11_families(tier: &str) -> Vec<Family> {
                 }
             }
         }
-        v.push(fam(US, 4, "u", &ORD_TWO));
-        v.push(fam(USL, 4, "u", &ORD_ONE));
+        v.push(fam(US, 4, "u", &ORD_ONE));
         v.push(fam(US, 4, "w12", &ORD_ONE));
-        v.push(fam(US, 5, "u", &ORD_ONE));
         v.push(fam(DS, 4, "u", &ORD_ONE));
+        v.push(fam(USL, 4, "u", &ORD_ONE));
     } else {
         for n in 0..=3 {
             for k in kinds_all() {
